@@ -5,9 +5,11 @@
 //! Decisions the specification leaves to the implementation are reported as `dont_care` (never as a verdict):
 //! custom scalar literals (the harness supplies a predicate), @skip/@include on the root selections of a
 //! subscription (the October 2021 text evaluates them with an empty variable map), integral floats for Int
-//! variables (see `coerce`), documents so large that the merge check exceeds its work budget.
+//! variables (see `coerce`), a nullable variable as the field of a OneOf input object (a static rule of the RFC only),
+//! requests in which a variable is null at run time in a non-null position (a field error of execution, §5.8.5 note),
+//! GetOperation failures, documents so large that the merge check exceeds its work budget.
 use crate::ast::*;
-use crate::coerce::{coerce_literal, coerce_variables, CV};
+use crate::coerce::{coerce_literal, coerce_runtime, CV};
 use crate::sch::*;
 use indexmap::IndexMap;
 use std::collections::{HashMap, HashSet};
@@ -20,12 +22,11 @@ pub struct Violation {
     pub msg: String,
 }
 
-pub const RULES: [&str; 32] = [
+pub const RULES: [&str; 31] = [
     "executable-definitions",
     "operation-name-uniqueness",
     "lone-anonymous-operation",
     "subscription-single-root-field",
-    "root-operation-type-exists",
     "field-selections",
     "field-selection-merging",
     "leaf-field-selections",
@@ -128,12 +129,14 @@ pub struct Quirks {
     /// C09-F7: directives on variable definitions are only checked for uniqueness (not for being defined, their
     /// location, or their arguments)
     pub variable_directives_unchecked: bool,
-    /// C09-F8: the non-null part of a variable's type is not enforced on the request's variables: a required
-    /// variable may be missing; an explicit null is only noticed where the variable stands in a non-null position
-    pub non_null_variables_not_enforced: bool,
     /// C09-F9: an argument whose value mentions a variable without a supplied value (defaults do not count; in an
     /// operation other than the named selected one: any variable) is not checked at all
     pub unsupplied_variable_disables_argument_check: bool,
+    /// C09-F11: `__typename` selections are not visited: their arguments, directives (and the variables used
+    /// there) and sub-selections are neither checked nor seen
+    pub typename_fields_unvisited: bool,
+    /// C09-F12: `Int` accepts every integer that fits 64 bits (literals, defaults and variable values)
+    pub int_accepts_64_bits: bool,
 }
 
 pub struct Input<'a> {
@@ -208,7 +211,74 @@ struct V<'a> {
 
 const MERGE_BUDGET: u64 = 2_000_000;
 
+/// C09-F4's description, executable: every object literal keeps, per field name, the position of the first
+/// occurrence and the value of the last
+fn dedupe_input_fields(doc: &mut Doc) {
+    fn val(v: &mut PVal) {
+        match &mut v.v {
+            Val::List(l) => l.iter_mut().for_each(val),
+            Val::Obj(o) => {
+                let mut out: Vec<(Name, PVal)> = vec![];
+                for (k, mut x) in std::mem::take(o) {
+                    val(&mut x);
+                    match out.iter_mut().find(|(n, _)| n.s == k.s) {
+                        Some(slot) => slot.1 = x,
+                        None => out.push((k, x)),
+                    }
+                }
+                *o = out;
+            }
+            _ => {}
+        }
+    }
+    fn dirs(ds: &mut [Directive]) {
+        for d in ds {
+            d.args.iter_mut().for_each(|(_, v)| val(v));
+        }
+    }
+    fn sel(s: &mut SelSet) {
+        for it in &mut s.items {
+            match it {
+                Selection::Field(f) => {
+                    f.args.iter_mut().for_each(|(_, v)| val(v));
+                    dirs(&mut f.directives);
+                    sel(&mut f.sel);
+                }
+                Selection::Inline(i) => {
+                    dirs(&mut i.directives);
+                    sel(&mut i.sel);
+                }
+                Selection::Spread(sp) => dirs(&mut sp.directives),
+            }
+        }
+    }
+    for d in &mut doc.defs {
+        match d {
+            Def::Op(o) => {
+                for v in &mut o.vars {
+                    if let Some(d) = &mut v.default {
+                        val(d);
+                    }
+                    dirs(&mut v.directives);
+                }
+                dirs(&mut o.directives);
+                sel(&mut o.sel);
+            }
+            Def::Frag(f) => {
+                dirs(&mut f.directives);
+                sel(&mut f.sel);
+            }
+        }
+    }
+}
+
 pub fn validate_full(inp: &Input<'_>, q: Quirks) -> Report {
+    if q.last_duplicate_input_field_wins {
+        let mut doc = inp.doc.clone();
+        dedupe_input_fields(&mut doc);
+        let inp2 = Input { sch: inp.sch, doc: &doc, op_name: inp.op_name, vars: inp.vars, non_executable_defs: inp.non_executable_defs, custom_scalar_ok: inp.custom_scalar_ok };
+        return validate_full(&inp2, Quirks { last_duplicate_input_field_wins: false, ..q });
+    }
     let mut ext = inp.sch.clone();
     for t in introspection_types() {
         ext.types.insert(t.name.clone(), t.clone());
@@ -398,7 +468,8 @@ impl<'a> V<'a> {
     fn operation(&mut self, o: &OpDef) {
         let root = self.ext.root(o.kind).map(|s| s.to_string());
         if root.is_none() {
-            self.viol("root-operation-type-exists", o.pos, format!("the schema has no {} root type", o.kind.kw()));
+            // not a rule of October 2021 §5 (later drafts: "Operation Type Existence"); execution cannot proceed either
+            self.dont_care.push(format!("the schema has no {} root type", o.kind.kw()));
         }
         // 5.8.1, 5.8.2, default values, directives on variable definitions
         for (i, vd) in o.vars.iter().enumerate() {
@@ -454,6 +525,9 @@ impl<'a> V<'a> {
         for it in &sel.items {
             match it {
                 Selection::Field(f) => {
+                    if self.q.typename_fields_unvisited && f.name.s == "__typename" {
+                        continue;
+                    }
                     let def = parent.and_then(|p| self.field_def(p, &f.name.s));
                     if let (Some(p), None) = (parent, &def) {
                         // 5.3.1
@@ -693,6 +767,9 @@ impl<'a> V<'a> {
 
     fn named_value(&mut self, n: &str, v: &PVal) {
         if BUILTIN_SCALARS.contains(&n) {
+            if self.q.int_accepts_64_bits && n == "Int" && matches!(&v.v, Val::Int(t) if t.parse::<i64>().is_ok()) {
+                return;
+            }
             if let Err(e) = coerce_literal(&self.ext, &Ty::named(n), &v.v, None) {
                 self.viol("values-of-correct-type", v.pos, format!("{} for type {}", e.msg, n));
             }
@@ -734,19 +811,11 @@ impl<'a> V<'a> {
 
     fn input_object(&mut self, td: &TypeDef, fields: &[(Name, PVal)], pos: Pos) {
         // 5.6.3
-        let mut seen: Vec<(Name, PVal)> = vec![];
-        for (i, (k, fv)) in fields.iter().enumerate() {
-            let dup = fields[..i].iter().any(|(p, _)| p.s == k.s);
-            if dup {
-                if self.q.last_duplicate_input_field_wins {
-                    seen.retain(|(p, _)| p.s != k.s);
-                } else {
-                    self.viol("input-object-field-uniqueness", k.pos, format!("input field {} given twice", k.s));
-                }
+        for (i, (k, _)) in fields.iter().enumerate() {
+            if fields[..i].iter().any(|(p, _)| p.s == k.s) {
+                self.viol("input-object-field-uniqueness", k.pos, format!("input field {} given twice", k.s));
             }
-            seen.push((k.clone(), fv.clone()));
         }
-        let fields: &[(Name, PVal)] = if self.q.last_duplicate_input_field_wins { &seen } else { fields };
         for (k, fv) in fields {
             match td.input_fields.iter().find(|f| f.name == k.s) {
                 // 5.6.2
@@ -883,67 +952,99 @@ impl<'a> V<'a> {
         if op.vars.iter().any(|v| !self.ext.is_input(v.ty.ty.base())) {
             return;
         }
-        let relaxed;
-        let mut op = op;
-        if self.q.non_null_variables_not_enforced {
-            let idx = self.inp.doc.defs.iter().position(|d| matches!(d, Def::Op(o) if std::ptr::eq(o, op))).unwrap_or(0);
-            let scopes = self.scopes_of(idx);
-            let mut o2 = op.clone();
-            for vd in o2.vars.iter_mut() {
-                if !vd.ty.ty.is_nn() {
-                    continue;
-                }
-                let noticed = match self.inp.vars.get(&vd.name.s) {
-                    None => false,
-                    Some(CV::Null) => scopes.iter().any(|sc| self.uses.get(sc).map_or(false, |us| us.iter().any(|u| u.name == vd.name.s && u.loc_ty.as_ref().map_or(false, |t| t.is_nn())))),
-                    Some(_) => true,
-                };
-                if !noticed {
-                    vd.ty.ty = vd.ty.ty.nullable().clone();
-                }
-            }
-            relaxed = o2;
-            op = &relaxed;
-        }
-        // a default value that is not a valid constant is already a violation of 5.6
-        match coerce_variables(&self.ext, op, self.inp.vars) {
-            Err(e) if e.dont_care => self.dont_care.push(format!("variable coercion: {}", e.msg)),
-            Err(e) => {
-                let default_problem = op.vars.iter().any(|v| !self.inp.vars.contains_key(&v.name.s) && v.default.as_ref().map_or(false, |d| coerce_literal(&self.ext, &v.ty.ty, &d.v, None).is_err()));
-                if !default_problem {
-                    self.viol("coerce-variable-values", op.pos, e.msg);
-                }
-            }
-            Ok(vals) => {
-                for vd in &op.vars {
-                    if let Some(cv) = vals.get(&vd.name.s) {
-                        if self.inp.vars.contains_key(&vd.name.s) && !self.custom_scalars_ok(&vd.ty.ty, cv) {
-                            self.viol("coerce-variable-values", vd.pos, format!("value of ${} is rejected by a custom scalar", vd.name.s));
+        let idx = self.inp.doc.defs.iter().position(|d| matches!(d, Def::Op(o) if std::ptr::eq(o, op))).unwrap_or(0);
+        let scopes = self.scopes_of(idx);
+        let in_non_null_position = |me: &Self, name: &str| scopes.iter().any(|sc| me.uses.get(sc).map_or(false, |us| us.iter().any(|u| u.name == name && u.loc_ty.as_ref().map_or(false, |t| t.is_nn()))));
+        // CoerceVariableValues(schema, operation, variableValues)
+        for vd in &op.vars {
+            let ty = &vd.ty.ty;
+            let run_time_value: Option<CV> = match self.inp.vars.get(&vd.name.s) {
+                None => match &vd.default {
+                    // a default value that is not a valid constant is already a violation of 5.6
+                    Some(d) => coerce_literal(&self.ext, ty, &d.v, None).ok().flatten(),
+                    None => {
+                        if ty.is_nn() {
+                            self.viol("coerce-variable-values", vd.pos, format!("required variable ${} not provided", vd.name.s));
                         }
+                        None
                     }
+                },
+                Some(v) => {
+                    match self.runtime_value(ty, v) {
+                        Ok(()) => {}
+                        Err((msg, true)) => self.dont_care.push(format!("variable coercion: {}", msg)),
+                        Err((msg, false)) => self.viol("coerce-variable-values", vd.pos, format!("${}: {}", vd.name.s, msg)),
+                    }
+                    Some(v.clone())
                 }
+            };
+            // §5.8.5's note: a nullable variable may stand in a non-null position (default value rule) and still be
+            // null at run time; that is a field error of execution, which validation cannot decide
+            if run_time_value == Some(CV::Null) && !ty.is_nn() && in_non_null_position(self, &vd.name.s) {
+                self.dont_care.push(format!("${} is null at run time in a non-null position", vd.name.s));
             }
         }
     }
 
-    fn custom_scalars_ok(&self, ty: &Ty, v: &CV) -> bool {
-        if *v == CV::Null {
-            return true;
-        }
+    /// §3 input coercion of a request variable's value (built-in scalars and enums: `coerce::coerce_runtime`)
+    fn runtime_value(&self, ty: &Ty, v: &CV) -> Result<(), (String, bool)> {
         match ty {
-            Ty::NonNull(i) => self.custom_scalars_ok(i, v),
-            Ty::List(i) => match v {
-                CV::List(items) => items.iter().all(|x| self.custom_scalars_ok(i, x)),
-                _ => self.custom_scalars_ok(i, v),
+            Ty::NonNull(inner) => {
+                if *v == CV::Null {
+                    Err(("null for a non-null type".into(), false))
+                } else {
+                    self.runtime_value(inner, v)
+                }
+            }
+            _ if *v == CV::Null => Ok(()),
+            Ty::List(inner) => match v {
+                CV::List(items) => items.iter().try_for_each(|x| self.runtime_value(inner, x)),
+                _ => self.runtime_value(inner, v),
             },
-            Ty::Named(n) => match self.ext.ty(n) {
-                Some(td) if td.kind == Kind::Scalar => (self.inp.custom_scalar_ok)(n, v),
-                Some(td) if td.kind == Kind::Input => match v {
-                    CV::Obj(o) => o.iter().all(|(k, x)| td.input_fields.iter().find(|f| &f.name == k).map_or(true, |f| self.custom_scalars_ok(&f.ty, x))),
-                    _ => true,
-                },
-                _ => true,
-            },
+            Ty::Named(n) => {
+                let td = self.ext.ty(n);
+                match td.map(|t| t.kind) {
+                    Some(Kind::Input) => {
+                        let td = td.unwrap();
+                        let o = match v {
+                            CV::Obj(o) => o,
+                            _ if self.q.non_object_for_input_object_accepted => return Ok(()),
+                            _ => return Err((format!("input object {} expected", n), false)),
+                        };
+                        for (k, x) in o {
+                            match td.input_fields.iter().find(|f| &f.name == k) {
+                                None => return Err((format!("input object {} has no field {}", n, k), false)),
+                                Some(fd) => self.runtime_value(&fd.ty, x)?,
+                            }
+                        }
+                        if td.one_of {
+                            if o.len() != 1 || o.values().next() == Some(&CV::Null) {
+                                return Err((format!("OneOf input object {} needs exactly one non-null field", n), false));
+                            }
+                            return Ok(());
+                        }
+                        for fd in &td.input_fields {
+                            if fd.ty.is_nn() && fd.default.is_none() && !o.contains_key(&fd.name) {
+                                return Err((format!("required input field {}.{} missing", n, fd.name), false));
+                            }
+                        }
+                        Ok(())
+                    }
+                    Some(Kind::Scalar) => {
+                        if (self.inp.custom_scalar_ok)(n, v) {
+                            Ok(())
+                        } else {
+                            Err((format!("scalar {} does not accept {}", n, v.show()), false))
+                        }
+                    }
+                    _ => {
+                        if self.q.int_accepts_64_bits && n == "Int" && matches!(v, CV::Int(_)) {
+                            return Ok(());
+                        }
+                        coerce_runtime(&self.ext, ty, v).map(|_| ()).map_err(|e| (e.msg, e.dont_care))
+                    }
+                }
+            }
         }
     }
 
@@ -960,6 +1061,9 @@ impl<'a> V<'a> {
             for it in &sel.items {
                 match it {
                     Selection::Field(f) => {
+                        if v.q.typename_fields_unvisited && f.name.s == "__typename" {
+                            continue;
+                        }
                         let child = parent.as_deref().and_then(|p| v.field_def(p, &f.name.s)).map(|d| d.ty.base().to_string()).filter(|b| v.ext.is_composite(b));
                         all_sets(v, &f.sel, child, out);
                     }
